@@ -36,14 +36,18 @@ def run(chk):
     if thorough: non_interference(chk, 3, loops=False)
     core = G.core_plain(['v0', 'v1'])
     rnd = [G.random_formula(chk.rng, 3, ['v0', 'v1']) for _ in range(60 if thorough else 10)]
-    forms = core[::1 if thorough else 2] + rnd
+    # extended formulas with colour-dependent context sets (d is empty for some colours only, e for the others)
+    X = ('var', 'x'); W = ('wild', 'w')
+    ext = [('forall', 'x', 'd', ('jump', 'x', ('AX', X))), ('exists', 'x', 'd', ('EF', X)), ('bind', 'x', 'd', ('EX', ('or', X, W))), ('forall', 'x', 'e', ('or', ('EF', X), W)),
+           ('and', ('forall', 'x', 'd', ('EX', X)), ('not', ('exists', 'x', 'e', ('AX', X)))), ('EU', W, ('forall', 'x', 'd', ('jump', 'x', P0)))]
+    forms = ext + core[::1 if thorough else 2] + rnd
     ncol = 20 if thorough else 5
     for inst in UC.instances(['U2', 'C2', 'M2'] + (['U3'] if thorough else [])):
-        fs = forms if inst.n == 2 else [f for f in G.core_plain(['v0', 'v2']) if S.depth(f) <= 2 and S.quant_depth(f) <= 1]
+        fs = [f for f in forms if inst.name != 'M2' or not (S.labels(f)[0] | S.labels(f)[1]) - set(inst.ctx)] if inst.n == 2 else [f for f in G.core_plain(['v0', 'v2']) if S.depth(f) <= 2 and S.quant_depth(f) <= 1]
         for i in range(0, len(fs), 10):
             chunk = fs[i:i + 10]
             k = max(S.quant_depth(f) for f in chunk) or 1
-            sess = UC.Session(inst, k, [{'phis': [f], 'entry': 'formula'} for f in chunk])
+            sess = UC.Session(inst, k, [{'phis': [f], 'entry': 'ext'} for f in chunk])
             dec = sess.dec_plain
             for j, f in enumerate(chunk):
                 b = sess.first(j)
@@ -51,7 +55,7 @@ def run(chk):
                 if b is None:
                     chk.obligation(name, 'E-UNI', 'violated'); chk.violation(name, 'error', {'answer': sess.runs[j]}, 'evaluation failed'); continue
                 if not UC.check_equiv(chk, 'C20', sess, f, b, name, 'colour-slice', rdec=dec): continue
-                if j % 3: continue
+                if j % 3 and f not in ext: continue
                 # instantiate distinct valid colours and run the real tool on the fully specified networks
                 colours = []; block = []
                 R = dec.bdd(b)
@@ -63,11 +67,13 @@ def run(chk):
                     T, sets, ok = UC.concrete_of_colour(sess, col)
                     # structurally distinct: block this transition relation
                     block.append(z3.Or(*[sess.K.trans(i_, s) != z3.BoolVal(T[(i_, s)]) for i_ in range(sess.dec.n) for s in range(1 << sess.dec.n)]))
-                    colours.append((col, T))
-                jobs = [{'op': 'mc', 'aeon': RP.concrete_aeon(inst.n, T), 'k': k, 'runs': [{'entry': 'formula', 'formulas': [S.show(f)]}], 'plain': True} for col, T in colours]
+                    colours.append((col, T, sets))
+                nm = [f'v{i_}' for i_ in range(inst.n)]
+                jobs = [{'op': 'mc', 'aeon': RP.concrete_aeon(inst.n, T), 'k': k, 'context': {l: {'t': 'expr', 'e': RP.dnf(nm, st, inst.n)} for l, st in sets.items()},
+                         'runs': [{'entry': 'ext', 'formulas': [S.show(f)]}], 'plain': True} for col, T, sets in colours]
                 answers = front.native(jobs) if jobs else []
                 bad = None
-                for (col, T), ans in zip(colours, answers):
+                for (col, T, sets), ans in zip(colours, answers):
                     r = ans['runs'][0]
                     if 'ok' not in r: bad = (col, 'native run failed: ' + str(r)); break
                     nat = RP.states_of(uni.Decoded(ans['plain']), r['ok'])
